@@ -1,14 +1,14 @@
 CONSTANTS
-  NumBlocks = {0, 5, 50, 500}
-  CallBlocks = {500}
-  LogBlocks = {50}
-  Extra = TRUE
-  MaxLen = 4
-  Latests = {0, 627}
+  NumBlocks = {5, 50, 500}
+  CallBlocks = {}
+  LogBlocks = {}
+  Extra = FALSE
+  MaxLen = 3
+  Latests = {627, 1000}
   Rule = 127
   Seed = TRUE
   Guard = TRUE
-  Tendermint = FALSE
+  Tendermint = TRUE
   ZeroOk = TRUE
   EarliestLow = TRUE
 INIT Init
